@@ -9,9 +9,12 @@ use crate::tv::TV;
 use crate::util::{Ctx, Model, Report, Rng};
 use crate::wire;
 
-fn gen_nums(rng: &mut Rng) -> Vec<f64> {
-    let n = 1 + match rng.below(4) { 0 => 0, 1 => rng.below(4), 2 => rng.below(12), _ => rng.below(50) };
-    let kind = rng.below(5);
+fn gen_nums(rng: &mut Rng, force_len: Option<usize>) -> Vec<f64> {
+    let n = match force_len {
+        Some(k) => k,
+        None => 1 + match rng.below(5) { 0 => 0, 1 => rng.below(4), 2 => rng.below(12), 3 => rng.below(50), _ => 50 + rng.below(260) },
+    };
+    let kind = if force_len.is_some() { rng.below(2) } else { rng.below(5) };
     (0..n).map(|_| match kind {
         0 => rng.range(-10, 10) as f64,
         1 => (rng.range(-1000, 1000) as f64) / 8.0,
@@ -30,8 +33,9 @@ pub fn run(ctx: &Ctx, rep: &mut Report) {
     let mut rng = Rng::new(ctx.seed);
     let mut model = Model::spawn(&ctx.model_path);
     let n = ctx.budget(400, 8000);
-    for _ in 0..n {
-        let xs = gen_nums(&mut rng);
+    // every length 1..=160 once (small integers / eighths), then random lengths up to 310
+    for it in 0..(n + 160) {
+        let xs = gen_nums(&mut rng, if it < 160 { Some(it + 1) } else { None });
         if xs.is_empty() {
             continue;
         }
